@@ -43,8 +43,14 @@ def graph_units(tier):
 
 # one generic definition instantiated at several values of a const parameter, in ONE process (the declaration
 # depends on the value; the instantiations share the definition's statics, if it has any)
-CONST_PRELUDE = "#[derive(TS)] pub struct Grid<T, const N: usize> { pub cells: [T; N], pub n: i32 } #[derive(TS)] pub struct Plain<T> { pub t: Vec<T> }"
-CONST_UNITS = [("GridA", "Grid<u8, 2>"), ("GridB", "Grid<u8, 3>"), ("GridC", "Grid<String, 0>"), ("GridD", "Grid<u8, 65>"), ("PlainA", "Plain<i32>"), ("PlainB", "Plain<String>")]
+CONST_PRELUDE = ("#[derive(TS)] pub struct Grid<T, const N: usize> { pub cells: [T; N], pub n: i32 } #[derive(TS)] pub struct Plain<T> { pub t: Vec<T> } "
+                 "#[derive(TS)] pub struct Block<const N: usize> { pub data: [u8; N], pub n: i32 } "
+                 "#[derive(TS)] pub struct UsesBlocks { pub a: Block<2>, #[ts(inline)] pub b: Block<3>, #[ts(flatten)] pub c: Block<1> } " +
+                 # several free parameters next to a concrete one (their order in name() must not depend on a hash order)
+                 " ".join("#[derive(TS)] #[ts(concrete(X%d = i32))] pub struct Wide%d<A, B, C, D, X%d> { pub a: A, pub b: Vec<B>, pub c: Option<C>, pub d: (D, X%d) }" % (k, k, k, k) for k in range(4)))
+CONST_UNITS = [("GridA", "Grid<u8, 2>"), ("GridB", "Grid<u8, 3>"), ("GridC", "Grid<String, 0>"), ("GridD", "Grid<u8, 65>"), ("PlainA", "Plain<i32>"), ("PlainB", "Plain<String>"),
+               ("BlockA", "Block<2>"), ("BlockB", "Block<4>"), ("BlockC", "Block<0>"), ("BlocksU", "UsesBlocks")] + [
+               ("Wide%dA" % k, "Wide%d<bool, String, i32, Inner, i32>" % k) for k in range(4)]
 
 
 def const_units():
